@@ -44,6 +44,7 @@ for s in (1, 2, 3, 4, 8):
 for s in (1, 2, 3, 4, 8):
     RUNS.append(_run('mod_lemma', 'h_mod_lemma', 16, 8, s, Q))
 RUNS.append(_run('acquire_int', 'h_acquire_int', 16, 8, 2, Q, mode='INT', cls='unbounded'))
+for (w, a, s) in [(16, 8, 1), (12, 4, 2), (33, 1, 3)]: RUNS.append(_run('ctor', 'h_ctor', w, a, s, Q, extra=SEQ_UW))
 for (w, a, s) in [(24, 8, 2), (24, 8, 3), (64, 8, 2), (12, 4, 2), (20, 4, 3), (33, 1, 3)]:
     t = Q if (w, s) == (24, 2) else TH
     RUNS.append(_run('store_load', 'h_store_load', w, a, s, t, extra=SEQ_UW))
@@ -71,6 +72,7 @@ UNIT = dict(
     'update functor does not throw and does not touch the seqlock (documented precondition)',
   ],
   consts=[
+    dict(name='XV_SEQ_INIT', file=F, regex=r'std::atomic<sequence_t> _seq\{([^}]*)\};'),
     dict(name='XV_COPY_T', file=F, regex=r'using copy_t = ([^;]+);'),
     dict(name='XV_SEQUENCE_T', file=F, regex=r'using sequence_t = ([^;]+);'),
     dict(name='XV_SLOTS_T', file=F, regex=r'static constexpr (\w+) slots ='),
@@ -98,6 +100,8 @@ UNIT = dict(
     _load(id='load', c_sig='static T sl_load(const struct seqlock* self)'),
     _load(id='load_cut', c_sig='static T sl_load_cut(const struct seqlock* self)', cut_loops={0: 'LOAD', 1: 'WAIT'},
           must_fire={'A_LOAD': 3, 'self_call:read_data': 1, 'self_call:is_write_pending': 1, 'subst:by_ref': 1, 'member:_data': 1, 'cut_loop': 2}),
+    dict(id='ctor_copy', file=F, sig=r'explicit seqlock\(const T& data\)', c_sig='static void sl_ctor_copy(struct seqlock* self, const T* data_p)', members=['_data'],
+         pre_subst=[(r'new \(&_data\[([^\]]+)\]\) T\(data\);', r'XV_CONSTRUCT_COPY(self, \1, data_p);', 'placement_new')], must_fire={'subst:placement_new': 1}),
     dict(id='store', file=F, sig=r'void ' + CLS + r'store\(const T& value\)',
          c_sig='static void sl_store(struct seqlock* self, const T* value_p)',
          members=['_data'], self_calls={'acquire_lock': 'sl_acquire_lock', 'release_lock': 'sl_release_lock', 'store_data': 'SL_STORE_DATA'},
@@ -114,6 +118,7 @@ UNIT = dict(
     'sl.copy.all_bytes': dict(deciding=True, text='store_data makes every one of the sizeof(T) bytes of the slot equal to the source and touches nothing else (no other slot, not _seq); read_data returns every one of the sizeof(T) bytes of the slot, reading each once, and writes nothing shared'),
     'sl.copy.in_bounds': dict(deciding=True, text='every word access of the copy loops lies inside the storage_t of the slot that was passed in'),
     'sl.copy.aligned': dict(deciding=True, text='every atomic word access of the copy loops is aligned for std::atomic<copy_t> (given the seqlock object is)'),
+    'sl.ctor.initial_value': dict(deciding=True, text='seqlock(const T&) constructs its argument in the slot that load() reads for the initial sequence number (read from the member initialiser, even): a load of a freshly constructed seqlock returns the initial value in all sizeof(T) bytes'),
     'sl.update.read_under_lock': dict(deciding=True, text='update takes the snapshot that feeds the functor while holding the lock (after its CAS, before its unlocking store), from slot (seq>>1) mod slots of the sequence value acquire_lock returned, and stores to the next slot under that same value (no lost update between two writers)'),
     'sl.lock.parity': dict(deciding=True, text='acquire_lock turns an even _seq v into v+1 and returns v+1; release_lock(v+1) makes it v+2; a write operation advances _seq by exactly 2 and leaves it even'),
     'sl.lock.acquire': dict(deciding=True, text='[INT] acquire_lock returns only after its own CAS moved _seq from an even value e to e+1, returns e+1, and writes nothing else'),
@@ -134,7 +139,7 @@ UNIT = dict(
   loop_obligation={'LOAD': 'sl.load.untorn', 'WAIT': 'sl.load.untorn', 'ACQ': 'sl.lock.acquire', 'ACQW': 'sl.lock.acquire'},
   replays={'sl.copy.all_bytes': dict(src='replay_copy.cpp'), 'sl.store_load.roundtrip': dict(src='replay_copy.cpp'),
            'sl.copy.aligned': dict(src='replay_copy.cpp'), 'sl.copy.in_bounds': dict(src='replay_copy.cpp')},
-  canaries=['copy.frame_other_slot', 'copy.done', 'copy.tail_byte', 'lock.done', 'store_load.done', 'store_load.frame', 'update.done', 'update.frame',
+  canaries=['ctor.done', 'copy.frame_other_slot', 'copy.done', 'copy.tail_byte', 'lock.done', 'store_load.done', 'store_load.frame', 'update.done', 'update.frame',
             'slots.multi', 'slots.done', 'solo.odd', 'solo.even', 'load_int.returned', 'load_int.seq_moved', 'load_int.env_wrote', 'load_int.odd_start',
             'acquire_int.returned', 'acquire_int.env_wrote', 'mod_lemma.reached'],
 )
